@@ -34,7 +34,8 @@ DATA = os.path.join(core.REPO, "tests", "data")
 BIN_SAMPLES = ["tiny", "mtxex.dll", "elf_with_imports", "0ca09bde7602769120fadc4f7a4147347a7a97271370583586c9e587fd396171",
                "tiny-idata-5200", "xor.out", "base64", "weird_rich", "tiny.notes", "6c2abf4b80a87e63eee2996e5cea8f004d49ec0c1806080fa72e960529cba14c"]
 WORDS = ["alpha", "bravo", "charlie", "delta", "echo", "foxtrot", "golf", "hotel", "india", "juliet"]
-RUN_TIMEOUT = 120
+RUN_TIMEOUT = 90          # a normal run takes well under 2 s; only a deadlocked binary gets here
+HANG = {"n": 0}           # after the first hang the remaining runs get a short leash, after 3 the thread scenarios stop
 
 
 # ---------------------------------------------------------------------------------------------- trees
@@ -180,7 +181,8 @@ def gen_rules(r, tag, console=False, reuse=False, externals=False):
 
 # ---------------------------------------------------------------------------------------------- running
 
-def run_cmd(argv, timeout=RUN_TIMEOUT, env=None):
+def run_cmd(argv, timeout=None, env=None):
+    timeout = timeout or (RUN_TIMEOUT if HANG["n"] == 0 else 10)
     e = dict(os.environ)
     e["ASAN_OPTIONS"] = "detect_leaks=1:abort_on_error=0:exitcode=99"
     e["UBSAN_OPTIONS"] = "print_stacktrace=1:halt_on_error=1"
@@ -190,6 +192,7 @@ def run_cmd(argv, timeout=RUN_TIMEOUT, env=None):
         p = subprocess.run(argv, stdout=subprocess.PIPE, stderr=subprocess.PIPE, timeout=timeout, env=e, stdin=subprocess.DEVNULL)
         return dict(rc=p.returncode, out=p.stdout.decode("latin-1"), err=p.stderr.decode("latin-1"), hang=False)
     except subprocess.TimeoutExpired as ex:
+        HANG["n"] += 1
         return dict(rc=None, out=(ex.stdout or b"").decode("latin-1"), err=(ex.stderr or b"").decode("latin-1"), hang=True)
 
 
@@ -288,6 +291,9 @@ class Cli:
 
     # ---- one "threads" scenario: -p N runs of a directory / scan list vs the per-file union
     def threads_scenario(self, sc):
+        if HANG["n"] >= 3 and self.nviol > 0:
+            self.stats["scenarios_skipped_after_hangs"] += 1
+            return
         tree = build_tree_cached(sc["tree"], self.tier == "quick")
         rdir = os.path.join(core.OUT, PID, "rules")
         os.makedirs(rdir, exist_ok=True)
@@ -356,7 +362,7 @@ class Cli:
             self.hist_p[p or 32] += 1
             d = {"argv": argv, "p": p}
             if res["hang"]:
-                self.violation("hang", sc, dict(d, what="directory scan did not terminate within %ds (deadlock?)" % RUN_TIMEOUT,
+                self.violation("hang", sc, dict(d, what="directory scan did not terminate (deadlock?); killed after the timeout",
                                                 stdout_tail=res["out"][-300:], stderr_tail=res["err"][-300:]))
                 continue
             if res["rc"] not in (0, 1):
@@ -684,7 +690,33 @@ def queue_cases(tier):
     return cases
 
 
-def run_queue_flavour(chk, binary, cases, flavour, hist, jobs=6):
+def history_property(line, slots):
+    """Model-independent reading of a recorded history: what, if anything, is wrong at the level of the property."""
+    if not line:
+        return "no history recorded"
+    head, _, evs = line.partition("|")
+    put, got, bad_idx = Counter(), Counter(), 0
+    for tok in evs.split():
+        f = tok.split(".")
+        if f[1] == "A":
+            put[f[2]] += 1
+        elif f[1] == "G" and f[2] != "-1":
+            got[f[2]] += 1
+        elif f[1] in "LU" and not all(0 <= int(x) < slots for x in f[2:4]):
+            bad_idx += 1
+        elif f[1] == "T":
+            return "a semaphore wait timed out"
+    if " HANG " in head:
+        return "threads did not terminate (%d of %d paths delivered)" % (sum(got.values()), sum(put.values()))
+    if bad_idx:
+        return "%d head/tail values outside file_queue[0..%d)" % (bad_idx, slots)
+    if got != put:
+        lost, dup = put - got, got - put
+        return "paths lost: %s; delivered twice or never put: %s" % (sorted(lost.elements())[:5], sorted(dup.elements())[:5])
+    return None
+
+
+def run_queue_flavour(chk, binary, cases, flavour, hist, slots, jobs=6):
     """Run the harness (several processes), replay every history in the Lean driver. Returns (#violations, #ok)."""
     chunks = [cases[i::jobs] for i in range(jobs)]
     chunks = [c for c in chunks if c]
@@ -699,9 +731,12 @@ def run_queue_flavour(chk, binary, cases, flavour, hist, jobs=6):
         rs = list(ex.map(one, chunks))
     nbad = nok = 0
     traces = {}
+    lost_behind = set()
     for chunk, (outl, rc, err) in zip(chunks, rs):
         for l in outl:
             traces[l.split(" ", 1)[0]] = l
+        if rc != 0 or any(" HANG |" in l for l in outl):
+            lost_behind.update(c.split(" ", 1)[0] for c in chunk)     # the harness stops at the first hang / sanitizer abort
         if rc != 0:
             nbad += 1
             chk.violation("queue_%s_sanitizer_%d.json" % (flavour, nbad), {"kind": "queue-harness-sanitizer-or-crash", "flavour": flavour, "rc": rc, "stderr": err,
@@ -718,13 +753,18 @@ def run_queue_flavour(chk, binary, cases, flavour, hist, jobs=6):
             hist["maxsize"][min(64, int(m.group(1))) // 8 * 8] += 1
             hist["events"] += int(re.search(r"ev=(\d+)", v).group(1))
             continue
-        if cid not in traces and any(rc != 0 for _, rc, _ in rs):
-            continue    # lost behind a crash/hang already reported
+        if cid not in traces and cid in lost_behind:
+            continue    # lost behind a crash/hang that is reported
         nbad += 1
+        prop = history_property(traces.get(cid) or "", slots)
         if nbad <= 10:
-            chk.violation("queue_%s_%s.json" % (flavour, cid), {"kind": "queue-history-not-a-model-run", "flavour": flavour, "engine": "queue", "harness": "h_queue",
-                                                                 "case": c, "history": (traces.get(cid) or "")[:200000], "model_verdict": v,
-                                                                 "note": "the history was produced by the real file_queue_put/get/finish; the model is proved correct (Thm/C18)"})
+            # the property itself fails on this history (lost/duplicated path, index outside the ring, threads hang): a concrete failing input;
+            # otherwise the code merely left the modelled protocol: the proof no longer covers it, but no failing input is at hand
+            chk.violation("queue_%s_%s.json" % (flavour, cid), {"kind": "queue-history-violates-property" if prop else "queue-history-not-a-model-run", "flavour": flavour,
+                                                                 "engine": "queue", "harness": "h_queue", "case": c, "history": (traces.get(cid) or "")[:200000],
+                                                                 "model_verdict": v, "property_failure": prop,
+                                                                 "note": "the history was produced by the real file_queue_put/get/finish; the model is proved correct (Thm/C18)"},
+                          no_input=not prop)
     return nbad, nok
 
 
@@ -740,11 +780,19 @@ def run(tier, replay=None):
         chk.violation("translator.json", {"kind": "translator-tie-broken", "translator": "cli", "error": repr(e)}, no_input=True)
     lres = core.lean_check(THM)
     core.proof_coverage(chk, lres, THM, tr)
-    bt = core.build("tsan", harness=["h_queue"])
-    ba = core.build("asan", harness=["h_queue"], cli=True)
-    bp = core.build("plain", cli=True)
+    # a scratch copy of the repo (VERIF_REPO) gets its own build directories: the harness #includes cli/*.c through -I<repo>,
+    # which the per-flavour Makefile cannot track across different repo roots
+    tag = None if core.REPO == "/repo" else "r" + hashlib.sha1(os.path.abspath(core.REPO).encode()).hexdigest()[:8]
+    bt = core.build("tsan", harness=["h_queue"], tag=tag)
+    ba = core.build("asan", harness=["h_queue"], cli=True, tag=tag)
+    bp = core.build("plain", cli=True, tag=tag)
 
     # ---- queue tie
+    try:
+        from translators import cli as tcli
+        slots = tcli.extract(core.REPO)["slots"]
+    except Exception:
+        slots = 65
     hist = {"maxsize": Counter(), "events": 0, "n": Counter(), "items": Counter()}
     qcases = queue_cases(tier)
     if replay and replay.get("kind", "").startswith("queue"):
@@ -760,7 +808,7 @@ def run(tier, replay=None):
     qbad = qok = 0
     if qcases and lres.get("driver_ok"):
         for flavour, binary in (("tsan", bt["h_queue"]), ("asan", ba["h_queue"])):
-            nb, nk = run_queue_flavour(chk, binary, qcases, flavour, hist)
+            nb, nk = run_queue_flavour(chk, binary, qcases, flavour, hist, slots)
             qbad += nb
             qok += nk
     found = found or qbad > 0
@@ -796,6 +844,7 @@ def run(tier, replay=None):
         "samples": cli.samples[:3] + ([{"queue_case": qcases[0]}] if qcases else []),
     })
     core.handle_broken_proof(chk, lres, found)
+    chk.violations.sort(key=lambda v: v[1] != "")          # concrete failing inputs first
     chk.assumptions += [
         "the scan deadline never expires during a run (cli_semaphore_wait returns only with a token; sem_timedwait is not interrupted by a signal: on EINTR the code proceeds as if it held a token)",
         "_tcsdup in file_queue_put does not fail",
